@@ -40,8 +40,8 @@ ASSUMPTIONS = [
 ]
 
 STYLES = ['mac', 'linux', 'win', 'py27', 'nameonly']
-PORTS = {'mac': ['/dev/cu.usbmodem1411', '/dev/cu.usbmodem14201', '/dev/cu.usbmodem621', '/dev/cu.usbmodem3',
-                 '/dev/cu.usbmodemFA131', '/dev/cu.usbmodem8'],
+PORTS = {'mac': ['/dev/cu.usbmodem1411', '/dev/cu.usbmodem14201', '/dev/tty.usbmodem621', '/dev/cu.usbmodem3',
+                 '/dev/tty.usbmodemFA131', '/dev/cu.usbmodem8'],
          'linux': ['/dev/ttyACM0', '/dev/ttyACM1', '/dev/ttyACM2', '/dev/ttyACM3', '/dev/ttyACM10', '/dev/ttyACM11'],
          'win': ['COM3', 'COM4', 'COM5', 'COM7', 'COM12', 'COM1'],
          'py27': ['COM3', 'COM4', 'COM5', 'COM7', 'COM12', 'COM1'],
@@ -49,7 +49,7 @@ PORTS = {'mac': ['/dev/cu.usbmodem1411', '/dev/cu.usbmodem14201', '/dev/cu.usbmo
 NICK_POOL = ['Bob', 'AxiDraw_7', 'NextDraw01', 'East', 'east2', 'Plotter', 'ab', 'Zed', 'MiniKit', 'Lab-3', 'bob2',
              'x1y2z3', 'Studio A', 'Axi Draw 2', 'West Wing 3', 'Axi+1', 'Rm[4]', 'Lab(2', 'a.b*c', 'Emma', 'Bart',
              'test rig', 'dot', 'SER', 'OK', ' Axi', 'USB', 'FT232R', 'Arduino', 'My', 'abcdefghijklmnop',
-             'Long_Plotter_13', 'East,West', 'A1', 'Z']
+             'Long_Plotter_13', 'East,West', 'A1', 'Z', 'ttyA', 'TTY', 'cu', 'usbmodem', 'dev', 'COM', 'ACM1']
 FOREIGN = [('FT232R USB UART', 'USB VID:PID=0403:6001 SER=A9XYZ LOCATION=1-3'),
            ('n/a', 'n/a'),
            ('Arduino Uno', 'USB VID:PID=2341:0043 SER=7533 LOCATION=1-1.4'),
@@ -129,7 +129,9 @@ def could_match(entry, x):
     norm = lambda t: t.lower().replace('_', ' ')
     x = norm(x)
     paren = norm(' '.join(re.findall(r'\(([^)]*)\)', d)))
-    return x in norm(p) or x in norm(h) or x in norm(d[11:]) or x in paren
+    # (a port name is matched from its beginning: a string that merely occurs somewhere inside another port's
+    #  path - its directory, its basename - does not make that port "also match")
+    return norm(p).startswith(x) or x in norm(h) or x in norm(d[11:]) or x in paren
 
 
 def tag_of(entry):
